@@ -62,6 +62,11 @@ def inputs(ctx):
         ins.append({"id": "r%d" % k, "k": "spans", "nodes": nodes, "route": rng.choice(ROUTES)})
     for d in corpus.docs():
         ins.append({"id": "d-" + d, "k": "balanced", "doc": d})
+    # every caption the SCC reader returns on random pop-on programs with italic preambles
+    # and mid-row codes (the italics normalisation passes)
+    from . import sccgen
+    for k in range(200 if ctx.quick else 5000):
+        ins.append({"id": "scc%d" % k, "k": "balanced", "scc": sccgen.popon_program(rng), "doubled": rng.random() < 0.5})
     return ins
 
 
@@ -208,7 +213,12 @@ TOKENISE = {"DFXP": tokens_dfxp, "DFXP-legacy": tokens_dfxp, "DFXP-single": toke
 
 def execute(inp):
     if inp["k"] == "balanced":
-        kind, text = corpus.docs()[inp["doc"]]
+        if "scc" in inp:
+            from . import sccgen
+            kind = "SCC"
+            text, _ = sccgen.render_program(inp["scc"], inp["doubled"])
+        else:
+            kind, text = corpus.docs()[inp["doc"]]
         cs = READERS[kind]().read(text)
         nodes = []
         for lg in cs.get_languages():
